@@ -225,6 +225,54 @@ type fieldAccess struct {
 	fa    *ssa.FieldAddr
 	write bool
 	field string
+	obj   ssa.Value // the guarded object as the accessing function sees it (nil: fa.X)
+}
+
+func (a fieldAccess) object() ssa.Value {
+	if a.obj != nil {
+		return a.obj
+	}
+	return a.fa.X
+}
+
+// derefsOfParam: the address of a guarded field is handed to a function of the module together with the object
+// itself; the function only loads and stores through it: those loads and stores are the accesses.
+func derefsOfParam(call *ssa.Call, fa *ssa.FieldAddr, fname string) ([]fieldAccess, bool) {
+	h := call.Call.StaticCallee()
+	if h == nil || len(h.Blocks) == 0 || !inModule(h) || len(h.Params) != len(call.Call.Args) {
+		return nil, false
+	}
+	pi, oi := -1, -1
+	for i, a := range call.Call.Args {
+		if a == ssa.Value(fa) {
+			pi = i
+		}
+		if a == fa.X {
+			oi = i
+		}
+	}
+	if pi < 0 || oi < 0 {
+		return nil, false
+	}
+	var out []fieldAccess
+	for _, ref := range *h.Params[pi].Referrers() {
+		switch u := ref.(type) {
+		case *ssa.UnOp:
+			if u.Op != token.MUL {
+				return nil, false
+			}
+			out = append(out, fieldAccess{h, u, fa, false, fname, h.Params[oi]})
+		case *ssa.Store:
+			if u.Addr != ssa.Value(h.Params[pi]) {
+				return nil, false
+			}
+			out = append(out, fieldAccess{h, u, fa, true, fname, h.Params[oi]})
+		case *ssa.DebugRef:
+		default:
+			return nil, false
+		}
+	}
+	return out, true
 }
 
 // fieldAccesses: every load/store through a FieldAddr (or value Field read) of the given struct's fields.
@@ -256,7 +304,7 @@ func (w *World) fieldAccesses(g guardedField) []fieldAccess {
 					switch u := ref.(type) {
 					case *ssa.Store:
 						if u.Addr == ssa.Value(fa) {
-							out = append(out, fieldAccess{fn, u, fa, true, fname})
+							out = append(out, fieldAccess{fn, u, fa, true, fname, nil})
 						}
 					case *ssa.UnOp:
 						// loading a map or slice and then writing through it is a write of the guarded state
@@ -279,13 +327,19 @@ func (w *World) fieldAccesses(g guardedField) []fieldAccess {
 								}
 							}
 						}
-						out = append(out, fieldAccess{fn, u, fa, wr, fname})
+						out = append(out, fieldAccess{fn, u, fa, wr, fname, nil})
 					case *ssa.MapUpdate:
-						out = append(out, fieldAccess{fn, u, fa, true, fname})
+						out = append(out, fieldAccess{fn, u, fa, true, fname, nil})
 					default:
+						if c, isCall := ref.(*ssa.Call); isCall {
+							if accs, ok := derefsOfParam(c, fa, fname); ok {
+								out = append(out, accs...)
+								continue
+							}
+						}
 						// address escapes (passed on): treat as write access
 						if _, isDbg := ref.(*ssa.DebugRef); !isDbg {
-							out = append(out, fieldAccess{fn, ref, fa, true, fname})
+							out = append(out, fieldAccess{fn, ref, fa, true, fname, nil})
 						}
 					}
 				}
@@ -378,7 +432,7 @@ func guardRule(w *World, r *Report, e *Engine, rule string, g guardedField) {
 		n++
 		li := e.locks(a.fn)
 		st := li.before[a.in]
-		key := e.keyOf(a.fa.X).String() + "." + g.mutex
+		key := e.keyOf(a.object()).String() + "." + g.mutex
 		need := 1
 		if a.write {
 			need = 2
@@ -391,13 +445,13 @@ func guardRule(w *World, r *Report, e *Engine, rule string, g guardedField) {
 		switch {
 		case st[key] >= need:
 			r.ok(rule, a.fn, construct, instrPos(a.in), "lock "+key+" held "+st.String())
-		case e.freshPtr(a.fa.X, 0):
+		case e.freshPtr(a.object(), 0):
 			r.ok(rule, a.fn, construct, instrPos(a.in), "object allocated in this activation, not yet shared")
 		case st[key] > 0 && st[key] < need:
 			r.bad(rule, a.fn, construct, instrPos(a.in), "written while only the read lock is held")
 		default:
 			// receiver-based requirement: the object is the function's receiver (parameter 0)
-			if pi, ok := paramObj(a.fn, a.fa.X); ok {
+			if pi, ok := paramObj(a.fn, a.object()); ok {
 				if required[a.fn] < need {
 					required[a.fn] = need
 				}
@@ -948,14 +1002,14 @@ func objectWritesRule(w *World, r *Report, e *Engine, rule string) {
 			}
 			n++
 			held := e.locks(a.fn).before[a.in]
-			key := e.keyOf(a.fa.X).String() + "." + g.mutex
+			key := e.keyOf(a.object()).String() + "." + g.mutex
 			construct := "store into " + g.typ + "." + a.field
 			switch {
 			case held[key] >= 2:
 				r.ok(rule, a.fn, construct, instrPos(a.in), "write lock "+key+" held")
-			case e.freshPtr(a.fa.X, 0):
+			case e.freshPtr(a.object(), 0):
 				r.ok(rule, a.fn, construct, instrPos(a.in), "object allocated in this activation, not yet shared")
-			case freshAtEveryCall(w, e, a.fa.X):
+			case freshAtEveryCall(w, e, a.object()):
 				r.ok(rule, a.fn, construct, instrPos(a.in), "an unexported initialiser: every caller hands it an object it has just allocated")
 			default:
 				r.bad(rule, a.fn, construct, instrPos(a.in), "a field of an object that programs share by reference is assigned without its mutex ("+key+"; held: "+held.String()+"): an evaluation that was only handed the object changes it for every other evaluation, and the unsynchronised write races with their reads")
